@@ -20,7 +20,7 @@ import warnings
 from traits.api import (Any, Callable, CInt, Constant, DelegatesTo, Dict,
                         Either, Enum, Event, Float, HasTraits, Instance, Int,
                         List, Map, Property, PrototypedFrom, Range, ReadOnly,
-                        Set, Str, TraitError, Tuple, Union)
+                        Set, Str, TraitError, TraitType, Tuple, Union)
 
 VARIANT = "asan"
 LEVEL = "fault_enumeration"
@@ -174,6 +174,33 @@ class O(HasTraits):
 
     def _bad_default_default(self):
         raise RuntimeError("default fails")
+
+
+_CUR = [None]
+
+
+class _Reassigning(TraitType):
+    """post_setattr assigns the same trait again (also when it is called
+    for the default value that a first read has just stored)"""
+
+    def post_setattr(self, object, name, value):
+        if not object.__dict__.get("_busy"):
+            object.__dict__["_busy"] = True
+            try:
+                setattr(object, name, Sentinel("replacement"))
+            finally:
+                object.__dict__["_busy"] = False
+
+
+class O2(HasTraits):
+    rp = _Reassigning()
+    ae = Any
+
+    def _rp_default(self):
+        return Sentinel("default")
+
+    def _ae_default(self):
+        raise AttributeError(_CUR[0])
 
 
 def cells():
@@ -410,6 +437,34 @@ def cells():
             pass
         o.a = None
     cell("trait_set-partial", trait_set_many, fails=True)
+
+    def default_replaced_in_post_setattr(o, S):
+        x = O2()
+        r = x.rp                # nothing else holds the default object
+        if r.tag != "default" or x.rp.tag != "replacement":
+            raise AssertionError("first read gave %r, second %r"
+                                 % (r, x.rp))
+    cell("default-replaced-by-post-setattr", default_replaced_in_post_setattr)
+
+    def default_attribute_error_as_error(o, S):
+        # the warning about an AttributeError in a default method, turned
+        # into an exception; the AttributeError (holding S) is its cause
+        _CUR[0] = S
+        x = O2()
+        with warnings.catch_warnings():
+            warnings.simplefilter("error")
+            try:
+                x.ae
+            except UserWarning as w:
+                c = w.__cause__
+                if not isinstance(c, AttributeError) or c.args[0] is not S:
+                    raise AssertionError("cause is %r" % (c,))
+                del c
+            else:
+                raise AssertionError("expected the warning as an error")
+        _CUR[0] = None
+    cell("default-attribute-error-warning-as-error",
+         default_attribute_error_as_error, fails=True)
 
     def pickle_object(o, S):
         x = R(a=[1, S], i=2, li=[1, 2], di={"k": 1}, inst=A())
